@@ -407,7 +407,7 @@ impl Scenario for C07 {
             let bk = nodes[writer];
             let params = b.pw_params(bk, false);
             let blob = b.blob_slot();
-            if b.rng.chance(2, 3) || (f == 1 && wk == WrapKind::Pke) {
+            if b.rng.chance(2, 3) {
                 let rng = match (wk, b.rng.below(3)) {
                     (WrapKind::Pw, 0) => pw_edge_rng(&mut b),
                     (_, 1) => b.edge_rng(),
@@ -419,6 +419,7 @@ impl Scenario for C07 {
                 let elen = match wk {
                     WrapKind::Pie => 32,
                     WrapKind::Pw => 56,
+                    WrapKind::Pke if f == 1 => 512,
                     WrapKind::Pke => 48,
                 };
                 let mut e = crate::prng::Rng::new(b.ev_seed()).bytes(elen);
@@ -438,6 +439,28 @@ impl Scenario for C07 {
             }
             for node in 0..nodes.len() {
                 b.push(Step::Unwrap { blob, node, with: with_u.clone(), faults: vec![], as_kind: None });
+            }
+        }
+        // k3: secret keys at the edges of the scalar range (1, n-1, one machine word below n, ...) written
+        // by a conforming implementation: every node unwraps them to the same key
+        if f == 3 && b.rng.chance(1, 2) {
+            let cands: Vec<Vec<u8>> = crate::props::c08::byzantine_keys(&mut b, 3).into_iter().filter(|(k, _, v, _)| *k == Kind::Secret && *v == Some(true)).map(|(_, raw, _, _)| raw).collect();
+            for _ in 0..3 {
+                if cands.is_empty() {
+                    break;
+                }
+                let raw = cands[b.rng.usize_below(cands.len())].clone();
+                let slot = b.key_slot();
+                b.push(Step::KeyFromRaw { slot, family: 3, kind: Kind::Secret, bytes: Bytes::hex(&raw) });
+                let wk = *b.rng.pick(&[WrapKind::Pie, WrapKind::Pw]);
+                let pw = Bytes::hex(b"edge scalar");
+                let (with_w, with_u) = wrap_secret_for(&fk, wk, &pw);
+                let blob = b.blob_slot();
+                let e = crate::prng::Rng::new(b.ev_seed()).bytes(56);
+                b.push(Step::RefWrap { blob, family: 3, wk, key: slot, with: with_w, params: PwParams::Iter(3), entropy: Bytes::hex(&e) });
+                for node in 0..nodes.len() {
+                    b.push(Step::Unwrap { blob, node, with: with_u.clone(), faults: vec![], as_kind: None });
+                }
             }
         }
         // memory sizes beyond Argon2's 32-bit KiB parameter, as they come out of `params()` of a parsed
